@@ -385,3 +385,157 @@ Proof.
       * intros t. now rewrite (build_or_sem t _ _ Hb).
       * apply perm_incl. apply (build_or_lvs _ _ Hb).
 Qed.
+
+Lemma Forall2_in_l {A B} (Rr : A -> B -> Prop) l l' x :
+  Forall2 Rr l l' -> In x l -> exists y, In y l' /\ Rr x y.
+Proof.
+  induction 1 as [|a b l l' Hab _ IH]; intros Hx; [destruct Hx|].
+  destruct Hx as [<-|Hx]; [exists b; split; [now left|assumption]|].
+  destruct (IH Hx) as [y [X Y]]. exists y. split; [now right|assumption].
+Qed.
+
+Lemma G_or_members l : G (NOr l) = true -> forallb G l = true /\ forall x, In x l -> is_or x = false.
+Proof.
+  cbn [G]. rewrite !forallb_forall. intros H. split; intros x Hx; specialize (H x Hx);
+    apply andb_true_iff in H; destruct H as [A B]; [assumption|now destruct (is_or x)].
+Qed.
+
+Lemma nonor_G_cases x : G x = true -> is_or x = false -> is_lit x = true \/ is_and x = true.
+Proof. destruct x as [z|[z|?|?|?]|l|l]; cbn; intros H1 H2; try discriminate; auto. Qed.
+
+(** * Main invariant of [__distribute_ors_switching] *)
+Lemma dist_sw_spec n : spec (dist_sw n).
+Proof.
+  induction n as [|n IH]; intros f a g b Ha Gf Bf H; cbn [dist_sw] in H; [discriminate|].
+  destruct f as [z|c|l|l].
+  - inversion H. subst g b. split; [apply step_refl|]. split; [reflexivity|split; [reflexivity|discriminate]].
+  - destruct c as [z|?|?|?]; try discriminate. inversion H. subst g b.
+    split; [apply step_refl|]. split; [reflexivity|split; [reflexivity|discriminate]].
+  - (* And *)
+    apply rbind_ok in H. destruct H as [[cl fr] [H1 H]]. apply rbind_ok in H. destruct H as [a' [H2 H3]].
+    inversion H3. subst g b. clear H3.
+    apply dist_fold_chain in H1. destruct H1 as [ys [E C]]. cbn [app] in E. subst cl.
+    destruct (chain_posts _ _ _ _ _ IH C Ha Gf Bf) as [SA [_ F]].
+    assert (Cn : is_cnf a' = true).
+    { apply (build_and_R ys); [|assumption]. intros y Hy.
+      destruct (Forall2_in_r _ _ _ _ F Hy) as [x [_ [Ry _]]]. exact Ry. }
+    split.
+    + eapply step_trans; [exact SA|]. apply step_equiv.
+      * intros t. now rewrite (build_and_sem t _ _ H2).
+      * apply perm_incl. apply (build_and_lvs _ _ H2).
+    + unfold cls_post, R, lit_or_cnf. rewrite Cn, !orb_true_r. split; [reflexivity|split; [reflexivity|]].
+      intros _. apply build_and_shape in H2. destruct H2 as [m ->]. reflexivity.
+  - (* Or *)
+    apply rbind_ok in H. destruct H as [[cl0 fr] [H1 H]]. apply rbind_ok in H. destruct H as [cl [H2 H]].
+    apply dist_fold_chain in H1. destruct H1 as [ys [E C]]. cbn [app] in E. subst cl0.
+    destruct (G_or_members l Gf) as [Gl NO].
+    destruct (chain_posts _ _ _ _ _ IH C Ha Gl Bf) as [_ [SO F]].
+    apply pysort_perm in H2.
+    assert (Lc : forall c, In c cl -> lit_or_cnf c = true).
+    { intros c Hc. apply (Permutation_in _ (Permutation_sym H2)) in Hc.
+      destruct (Forall2_in_r _ _ _ _ F Hc) as [x [Hx [_ [P _]]]]. apply P. now apply NO. }
+    assert (S1 : step (NOr l) a (NOr cl) fr).
+    { eapply step_trans; [exact SO|]. apply step_equiv.
+      - intros t. cbn [neval]. symmetry. now apply existsb_perm.
+      - cbn [nleaves]. apply perm_incl. now apply (lvs_perm ys cl). }
+    assert (B1 : bounded (NOr cl) fr) by (apply (step_bounded _ a _ _ Ha S1); assumption).
+    pose proof (st_le _ _ _ _ S1) as Le.
+    assert (CR : forall g', cls_post (NOr l) g' <-> R g' = true).
+    { intros g'. unfold cls_post. cbn [is_or is_and]. split; [tauto|]. intros X. split; [assumption|].
+      split; discriminate. }
+    destruct (1 <? length cl)%nat eqn:Len.
+    + destruct (should_not_combine cl) eqn:SNC.
+      * inversion H. subst g b. split; [apply step_refl|]. apply CR. unfold R, is_clause. cbn [is_lit orb].
+        replace (forallb is_lit l) with true; [reflexivity|]. symmetry. apply forallb_forall. intros x Hx.
+        destruct (Forall2_in_l _ _ _ _ F Hx) as [y [Hy [_ [_ PA]]]].
+        assert (Gx : G x = true) by (rewrite forallb_forall in Gl; now apply Gl).
+        destruct (nonor_G_cases x Gx (NO x Hx)) as [X|X]; [assumption|].
+        exfalso. unfold should_not_combine in SNC. apply negb_true_iff in SNC.
+        assert (existsb is_and cl = true); [|congruence].
+        apply existsb_exists. exists y. split; [now apply (Permutation_in _ H2)|now apply PA].
+      * destruct cl as [|c0 [|c1 rest]]; cbn [length] in Len; try discriminate.
+        cbn [should_combine_naively rbind] in H.
+        assert (L0 : lit_or_cnf c0 = true) by (apply Lc; now left).
+        assert (L1 : lit_or_cnf c1 = true) by (apply Lc; right; now left).
+        assert (Lr : forall x, In x rest -> lit_or_cnf x = true) by (intros x Hx; apply Lc; right; now right).
+        destruct (is_lit_shape c0 || is_lit_shape c1).
+        -- apply rbind_ok in H. destruct H as [c [Hc H]].
+           destruct (naive_comb_spec c0 c1 rest c L0 L1 Lr Hc) as [Gc [Sc Vc]].
+           assert (S2 : step (NOr l) a c fr).
+           { eapply step_trans; [exact S1|]. now apply step_equiv. }
+           destruct (IH c fr g b ltac:(lia) Gc (step_bounded _ a _ _ Ha S2 Bf) H) as [S3 [Rg _]].
+           split; [now apply (step_trans _ _ _ _ _ _ S2)|now apply CR].
+        -- apply rbind_ok in H. destruct H as [[c fr'] [Hc H]].
+           destruct (sw_comb_spec c0 c1 rest fr c fr' ltac:(lia) L0 L1 Lr B1 Hc) as [-> [Gc Sc]].
+           assert (S2 : step (NOr l) a c (fr + 1)) by (now apply (step_trans _ _ _ _ _ _ S1)).
+           destruct (IH c (fr + 1) g b ltac:(lia) Gc (step_bounded _ a _ _ Ha S2 Bf) H) as [S3 [Rg _]].
+           split; [now apply (step_trans _ _ _ _ _ _ S2)|now apply CR].
+    + destruct cl as [|c0 [|c1 rest]]; cbn [length] in Len; try discriminate.
+      inversion H. subst g b. split.
+      * eapply step_trans; [exact S1|]. apply step_equiv.
+        -- intros t. cbn [neval existsb]. now rewrite orb_false_r.
+        -- cbn [nleaves flat_map]. rewrite app_nil_r. apply incl_refl.
+      * apply CR. apply lit_or_cnf_R. apply Lc. now left.
+Qed.
+
+Lemma wrap_and_R g : R g = true -> is_cnf (wrap_and g) = true.
+Proof.
+  unfold R. intros H. apply orb_true_iff in H. destruct H as [H|H].
+  - destruct g as [z|c|m|m]; cbn [wrap_and is_cnf forallb]; try now rewrite H.
+    unfold is_clause in H. cbn in H. discriminate.
+  - destruct g as [z|c|m|m]; cbn in H; try discriminate. exact H.
+Qed.
+
+Lemma eval_local s t f :
+  (forall z, In z (leaves f) -> s (Z.abs z) = t (Z.abs z)) -> eval s f = eval t f.
+Proof.
+  intros H. rewrite <- !elim_sem. apply neval_local. intros z Hz. apply H. now apply elim_leaves.
+Qed.
+
+(** * to_cnf_switching *)
+Theorem switching_correct f nv g nv' :
+  1 <= nv -> (forall z, In z (leaves f) -> Z.abs z < nv) ->
+  to_cnf_switching f nv = Ok (g, nv') ->
+  nv <= nv' /\
+  is_cnf g = true /\
+  (forall z, In z (nleaves g) -> In z (leaves f) \/ nv <= z < nv') /\
+  (forall s, (exists t, (forall v, ~ (nv <= v < nv') -> t v = s v) /\ neval t g = true) <-> eval s f = true).
+Proof.
+  intros Hnv HL H. unfold to_cnf_switching in H.
+  apply rbind_ok in H. destruct H as [g1 [H1 H]]. apply rbind_ok in H. destruct H as [[g2 fr] [H2 H3]].
+  inversion H3. subst g nv'. clear H3.
+  assert (B1 : bounded g1 nv).
+  { intros z Hz. apply HL. apply elim_leaves. now apply (demorgan_leaves _ _ _ H1). }
+  destruct (dist_sw_spec _ g1 nv g2 fr Hnv (demorgan_G _ _ _ H1) B1 H2) as [[Le V Snd Cmp] [Rg _]].
+  split; [assumption|]. split; [now apply wrap_and_R|]. split.
+  - intros z Hz. rewrite wrap_and_leaves in Hz. destruct (V z Hz) as [X|X]; [left|now right].
+    apply elim_leaves. now apply (demorgan_leaves _ _ _ H1).
+  - intros s. split.
+    + intros [t [O Ht]]. rewrite wrap_and_sem in Ht. apply Snd in Ht.
+      rewrite (demorgan_sem t _ _ _ H1), elim_sem in Ht. rewrite <- Ht. apply eval_local.
+      intros z Hz. symmetry. apply O. apply HL in Hz. lia.
+    + intros Hs. rewrite <- elim_sem, <- (demorgan_sem s _ _ _ H1) in Hs.
+      destruct (Cmp s Hs) as [t [O Ht]]. exists t. split; [exact O|now rewrite wrap_and_sem].
+Qed.
+
+(** The conversion is not total either. *)
+Lemma switching_not_total :
+  (exists f nv, to_cnf_switching f nv = Err ETypeError) /\
+  (exists f nv, to_cnf_switching f nv = Err EIndexError).
+Proof.
+  split.
+  - exists (FNot (FIf (FVar 1) (FVar 2))), 3. vm_compute. reflexivity.
+  - exists (FOr []), 1. vm_compute. reflexivity.
+Qed.
+
+Lemma ex_switching :
+  (forall z, In z (leaves (FOr [FAnd [FVar 1; FVar 2]; FAnd [FVar 3; FVar (-4)]; FIf (FVar 1) (FVar 3)])) -> Z.abs z < 5) /\
+  to_cnf_switching (FOr [FAnd [FVar 1; FVar 2]; FAnd [FVar 3; FVar (-4)]; FIf (FVar 1) (FVar 3)]) 5 =
+    Ok (NAnd [NOr [NVar 1; NNot (NVar 1); NVar 3; NNot (NVar 5)];
+              NOr [NNot (NVar 1); NVar 2; NVar 3; NNot (NVar 5)];
+              NOr [NVar (-4); NNot (NVar 1); NVar 3; NVar 5];
+              NOr [NNot (NVar 1); NVar 3; NVar 3; NVar 5]], 6).
+Proof.
+  split; [|vm_compute; reflexivity].
+  intros z Hz. cbn in Hz. repeat (destruct Hz as [<-|Hz]; [reflexivity|]). destruct Hz.
+Qed.
